@@ -17,7 +17,9 @@ ROOT = Path(__file__).resolve().parent.parent
 REPO = Path(os.environ.get("VERIF_REPO", "/repo"))
 LEAN = ROOT / "lean"
 DRV = LEAN / ".lake" / "build" / "bin" / "verifdrv"
-EVID = ROOT / "evidence"
+# evidence/ only ever describes runs against /repo itself: runs against a scratch tree (VERIF_REPO) write elsewhere
+EVID = (Path(os.environ["VERIF_EVIDENCE_DIR"]) if os.environ.get("VERIF_EVIDENCE_DIR")
+        else (ROOT / "replays" / "evidence-scratch" if os.environ.get("VERIF_REPO") else ROOT / "evidence"))
 REPLAYS = ROOT / "replays"
 ALLOWED_AXIOMS = {"propext", "Classical.choice", "Quot.sound"}
 FORBIDDEN = re.compile(r"\b(sorry|admit|native_decide|bv_decide|implemented_by)\b|^\s*axiom\s|\bunsafe\s|maxHeartbeats\s+0\b")
@@ -306,7 +308,7 @@ def write_replay(prop, name, obj):
 
 
 def write_evidence(prop, tier, t0, coverage, assumptions, violations):
-    EVID.mkdir(exist_ok=True)
+    EVID.mkdir(parents=True, exist_ok=True)
     ev = {
         "property_id": prop, "tier": tier, "seed": seed(), "level": "proof",
         "coverage": coverage, "assumptions": assumptions,
